@@ -464,6 +464,25 @@ func main() {
 	}
 	c.Stats.Extra["single_byte_mutations_go_side"] = nMut
 
+	// ---- (2b) large templates (Go side only): inscriptions whose content needs each of the long push forms, followed by
+	// an OP_RETURN suffix whose data needs another one, in every order of sizes — what one push's header leaves behind
+	// must not show in the next; bare multisig / P2PK behind and before large data pushes
+	for _, n1 := range []int{75, 76, 255, 256, 65535, 65536, 70000} {
+		for _, n2 := range []int{-1, 0, 1, 76, 300, 65535, 65536} {
+			if !c.Thorough() && (n1+n2+int(c.Seed))%2 == 1 && !(n1 >= 65536 && n2 == 300) {
+				continue
+			}
+			var opret [][]byte
+			if n2 >= 0 {
+				opret = [][]byte{r.Bytes(n2)}
+			}
+			scriptCase("large-template/inscription", inscription(r, "image/png", r.Bytes(n1), opret), bscript.ScriptTypePubKeyHashInscription, false)
+			if n2 >= 0 {
+				scriptCase("large-template/data", append(append([]byte{0x00, 0x6a}, sg.Push(sg.FormMinimal, r.Bytes(n1))...), sg.Push(sg.FormMinimal, r.Bytes(n2))...), bscript.ScriptTypeNullData, false)
+			}
+		}
+	}
+
 	// ---- (3) inputs of earlier defects and hand-made near-templates
 	for _, h := range []string{
 		"01024c00", "4c00515151ae", "006a015101ae", "6a015101ae", "514c00ae", "51ae", "5151ae", "00ae", "0000ae", "4c004c00ae", "514c0051ae",
